@@ -263,14 +263,39 @@ def rule_sorted(ctx, m):
                line=r.lineno)
 
 
-def rule_offsets(ctx, m):
+def rule_offsets(ctx, m, rule='C08-R3'):
     fi = m.func('TrajectoryStore._create_merged_store_index')
     loops = [n for n in walk_no_nested(fi.node) if isinstance(n, ast.For)]
     lp = next((l for l in loops if any(isinstance(s, ast.AugAssign) and norm(s.target) == 'index_offset' for s in l.body)), None)
     if lp is None:
-        ctx.undecided('C08-R3', fi, 'index_offset loop', 'no loop advancing index_offset')
+        # pre-computed offsets idiom: [0, *accumulate(len(x) for x in S[:-1])]
+        acc = [c for c in calls_in(fi.node) if call_name(c).split('.')[-1] == 'accumulate']
+        if len(acc) == 1:
+            c = acc[0]
+            src = c.args[0]
+            it = src.generators[0].iter if isinstance(src, (ast.GeneratorExp, ast.ListComp)) and len(src.generators) == 1 else None
+            par = getattr(c, '_parent', None)
+            starts_zero = False
+            while par is not None and not isinstance(par, ast.stmt):
+                if isinstance(par, ast.List) and par.elts and isinstance(par.elts[0], ast.Constant) and par.elts[0].value == 0:
+                    starts_zero = True
+                par = getattr(par, '_parent', None)
+            if any(k.arg == 'initial' and isinstance(k.value, ast.Constant) and k.value.value == 0 for k in c.keywords):
+                starts_zero = True
+            if isinstance(it, ast.Subscript) and isinstance(it.slice, ast.Slice):
+                sl = norm(it.slice)
+                ok = starts_zero and sl == ':-1'
+                ctx.ob(rule, fi, f'offsets = 0, then running sum of len(store) over stores[{sl}]', ok,
+                       'offset of store k is the total length of the stores before it' if ok else
+                       (f'the running sum is taken over stores[{sl}]: the offset of store k is not the number of '
+                        'trajectories in the stores before it (it coincides only when all inputs have the same size), so '
+                        'flight identifiers of later parts point at the wrong trajectory'), line=c.lineno)
+                return
+            if it is not None and starts_zero and any(k.arg == 'initial' for k in c.keywords) is False and isinstance(it, ast.Name):
+                ctx.undecided(rule, fi, norm(c)[:80], 'accumulate over all stores with a leading 0: alignment with the stores cannot be decided')
+        ctx.undecided(rule, fi, 'index_offset loop', 'no loop advancing index_offset and no recognised pre-computed offsets')
     ok = isinstance(lp.iter, ast.Name) and lp.iter.id in fi.params
-    ctx.ob('C08-R3', fi, f'for … in {norm(lp.iter)}', ok,
+    ctx.ob(rule, fi, f'for … in {norm(lp.iter)}', ok,
            'iterates the caller\'s list in the order given' if ok else
            'inputs are visited in a different order than the metadata records', line=lp.lineno)
     init = single_def_value(fi.node, 'index_offset')
@@ -282,21 +307,21 @@ def rule_offsets(ctx, m):
     ok = len(inits) == 1 and isinstance(inits[0].value, ast.Constant) and inits[0].value.value == 0 \
         and len(aug) == 1 and isinstance(aug[0].op, ast.Add) and norm(aug[0].value).startswith('len(') \
         and use_idx and max(use_idx) < aug_idx[0]
-    ctx.ob('C08-R3', fi, 'offset starts at 0 and advances by len(store) after use', ok,
+    ctx.ob(rule, fi, 'offset starts at 0 and advances by len(store) after use', ok,
            f'{norm(aug[0]) if aug else "?"} after the indexes were shifted' if ok else
            'offset arithmetic is off (initial value, increment, or advanced before use)',
            line=(aug[0].lineno if aug else lp.lineno))
     shifted = [s for s in lp.body if 'index_offset' in norm(s) and 'trajectory_index' in norm(s)]
     ok = bool(shifted) and any(isinstance(x, ast.BinOp) and isinstance(x.op, ast.Add)
                                and 'index_offset' in norm(x) for x in ast.walk(shifted[0]))
-    ctx.ob('C08-R3', fi, 'per-store indexes shifted by the offset', ok,
+    ctx.ob(rule, fi, 'per-store indexes shifted by the offset', ok,
            norm(shifted[0])[:100] if ok else 'per-store trajectory indexes are not shifted by the running offset',
            line=(shifted[0].lineno if shifted else lp.lineno))
     # len(ts) must measure the store opened in this iteration
     opens = [s for s in lp.body if isinstance(s, ast.Assign) and isinstance(s.value, ast.Call)
              and call_name(s.value).endswith('TrajectoryStore.open')]
     ok = bool(opens) and bool(aug) and norm(aug[0].value) == f'len({norm(opens[0].targets[0])})'
-    ctx.ob('C08-R3', fi, 'offset advanced by the length of the store just indexed', ok,
+    ctx.ob(rule, fi, 'offset advanced by the length of the store just indexed', ok,
            'same store object' if ok else 'the offset is advanced by a different store\'s length',
            line=(aug[0].lineno if aug else lp.lineno), nontrivial=False)
 
@@ -311,8 +336,19 @@ def rule_all_or_none(ctx, m):
                 if 'has_flight_id != self.indexable' in txt or 'self.indexable != has_flight_id' in txt:
                     found = (n, txt)
     ok = found is not None and 'self.indexable is not None' in found[1]
+    extra = []
+    if found is not None:
+        for t, pol, _ in guards_of(found[0]):
+            for a, pp in conjuncts(t, pol):
+                if norm(a) not in ('self.indexable is not None', 'has_flight_id != self.indexable', 'self.indexable != has_flight_id'):
+                    extra.append(('' if pp else 'not ') + norm(a))
+    ok = ok and not extra
     ctx.ob('C08-R4', add, 'mixed identifier use refused on add', ok,
-           f'raise under `{found[1]}`' if ok else 'add accepts a trajectory whose identifier use differs from the store')
+           f'raise under `{found[1]}`' if ok else
+           (f'the identifier check only runs under the extra condition {extra}: that is session-local state (the '
+            'cache is empty at the start of an append session), so the first addition of a session can break '
+            '"fully identified or not at all"' if extra else
+            'add accepts a trajectory whose identifier use differs from the store'))
     hf = single_def_value(add.node, 'has_flight_id')
     ok = hf is not None and "hasattr(trajectory, 'flight_id')" in norm(hf) and 'is not None' in norm(hf)
     ctx.ob('C08-R4', add, f'has_flight_id = {norm(hf) if hf is not None else "?"}', ok,
